@@ -774,8 +774,8 @@ impl Expression {
                         let mut num = 0i64;
                         let peek = ps.peek::<0>()?;
                         if !('0'..='9').contains(&peek)
-                            && !('a'..='z').contains(&peek)
-                            && !('A'..='Z').contains(&peek)
+                            && !('a'..='f').contains(&peek)
+                            && !('A'..='F').contains(&peek)
                         {
                             ps.add_warning_at_current_position(
                                 ParseErrorKind::UnexpectedExpressionCharacter,
@@ -809,8 +809,8 @@ impl Expression {
                                 break;
                             }
                             if !('0'..='9').contains(&peek)
-                                && !('a'..='z').contains(&peek)
-                                && !('A'..='Z').contains(&peek)
+                                && !('a'..='f').contains(&peek)
+                                && !('A'..='F').contains(&peek)
                             {
                                 ps.add_warning_at_current_position(
                                     ParseErrorKind::UnexpectedExpressionCharacter,
